@@ -56,6 +56,10 @@ func vSmallSegment() (*SegmentBase, []index.Document, *sSpec) {
 
 // vCompleteFile: the bytes are a complete segment file: body, footer, CRC; and it re-opens to the full content.
 func vCompleteFile(file []byte, sb *SegmentBase, sp *sSpec, tag string) {
+	vCompleteFileX(file, sb, sp, nil, tag)
+}
+
+func vCompleteFileX(file []byte, sb *SegmentBase, sp *sSpec, ssp *sSynSpec, tag string) {
 	vAssert(len(file) == len(sb.mem)+FooterSize, tag+"complete-len")
 	vAssert(vBytesEq(file[:len(sb.mem)], sb.mem), tag+"complete-body")
 	vFSPut(vP("check.zap"), file)
@@ -63,14 +67,45 @@ func vCompleteFile(file []byte, sb *SegmentBase, sp *sSpec, tag string) {
 	o, err := z.Open(vP("check.zap"))
 	vAssert(err == nil, tag+"complete-open")
 	vAssert(o.(*Segment).CRC() == vCRC(file[:len(file)-4]), tag+"complete-crc")
-	sCheckStored(o, sp, tag+"c-")
-	sCheckPostings(o, sp, tag+"c-")
+	if sp != nil {
+		sCheckStored(o, sp, tag+"c-")
+		sCheckPostings(o, sp, tag+"c-")
+	}
+	if ssp != nil {
+		vAssert(o.Count() == uint64(ssp.nDocs), tag+"c-count")
+		sCheckThesauri(o, ssp, nil, nil, tag+"c-")
+	}
 	vAssert(o.Close() == nil, tag+"complete-close")
+}
+
+// vFaultSegment: the segment written by the fault harnesses: the small one, a richer one (two fields, term
+// vectors with locations, stored values, doc values, three documents) or one with a synonym section.
+func vFaultSegment() (*SegmentBase, *sSpec, *sSynSpec) {
+	switch vChoice("seg", 3) {
+	case 1:
+		docs, sp := vGenBatchFixed(gCfg{prefix: "", idBase: "d", nDocs: 3, wide: -1, idDV: false,
+			fields: []gField{
+				{name: "f", terms: []string{"a", "b"}, tv: true, maxLocs: 1, fixLocs: true, dv: true, store: true},
+				{name: "g", terms: []string{"c"}, dv: true, store: true, fixFreq: true},
+			}})
+		var z ZapPlugin
+		seg, _, err := z.newWithChunkMode(docs, DefaultChunkMode)
+		vAssert(err == nil, "build")
+		return seg.(*SegmentBase), sp, nil
+	case 2:
+		docs, ssp := vGenSynBatchFixed()
+		var z ZapPlugin
+		seg, _, err := z.newWithChunkMode(docs, DefaultChunkMode)
+		vAssert(err == nil, "build")
+		return seg.(*SegmentBase), nil, ssp
+	}
+	sb, _, sp := vSmallSegment()
+	return sb, sp, nil
 }
 
 // H17_writeTo: WriteTo against a writer failing at any call: error, or complete bytes.
 func H17_writeTo() {
-	sb, _, sp := vSmallSegment()
+	sb, sp, ssp := vFaultSegment()
 	w := &vFailWriter{}
 	n, err := sb.WriteTo(w)
 	if w.failed {
@@ -79,12 +114,12 @@ func H17_writeTo() {
 	}
 	vAssert(err == nil, "nofault-ok")
 	vAssert(int(n) == len(w.buf), "n")
-	vCompleteFile(w.buf, sb, sp, "")
+	vCompleteFileX(w.buf, sb, sp, ssp, "")
 }
 
 // H17_persist: Persist with a fault at any Write / Sync / Close of the destination.
 func H17_persist() {
-	sb, _, sp := vSmallSegment()
+	sb, sp, ssp := vFaultSegment()
 	path := vP("p.zap")
 	if vBool("preexisting") {
 		// an older, shorter file is already at the path (a longer one would keep its tail: outside the claim)
@@ -100,7 +135,7 @@ func H17_persist() {
 	}
 	vAssert(!vFSFaulted(), "fault-reported")
 	vAssert(vFSExists(path), "ok-file")
-	vCompleteFile(vFSBytes(path), sb, sp, "")
+	vCompleteFileX(vFSBytes(path), sb, sp, ssp, "")
 }
 
 func vMergeInputs() ([]segment.Segment, []*roaring.Bitmap, *sSpec) {
@@ -139,18 +174,67 @@ func H17_merge() {
 	defer func() { DefaultFileMergerBufferSize = saved }()
 	DefaultFileMergerBufferSize = vParam("mergeBuf", 64)
 	segs, drops, want := vMergeInputs()
+	var wantSyn *sSynSpec
+	opened := 0
+	switch vChoice("inputs", 3) {
+	case 1:
+		// inputs opened from files (they must stay open and untouched whatever happens to the output)
+		for i := range segs {
+			p := vP(fmt.Sprint("in", i, ".zap"))
+			vAssert(segs[i].(*SegmentBase).Persist(p) == nil, "persist-input")
+			var z ZapPlugin
+			o, err := z.Open(p)
+			vAssert(err == nil, "open-input")
+			segs[i] = o
+			opened++
+		}
+	case 2:
+		segs, drops, wantSyn = vSynMergeInputs()
+		want = nil
+	}
 	path := vP("m.zap")
 	vFSFailWrites(path)
 	var z ZapPlugin
 	_, size, err := z.Merge(segs, drops, path, nil, nil)
 	vFSDisarm()
-	vAssert(vFSOpenHandles() == 0, "handle-closed")
+	vAssert(vFSOpenHandles() == opened, "handle-closed")
+	vAssert(len(segs) == 2 && segs[0] != nil, "inputs-alive")
 	if err != nil {
 		vAssert(!vFSExists(path), "error-no-file")
 		return
 	}
 	vAssert(!vFSFaulted(), "fault-reported")
-	vCheckMerged(path, size, want, "")
+	if want != nil {
+		vCheckMerged(path, size, want, "")
+		return
+	}
+	var z2 ZapPlugin
+	m, err := z2.Open(path)
+	vAssert(err == nil, "open")
+	vAssert(m.Count() == 4, "syn-count")
+	sCheckThesauri(m, wantSyn, nil, nil, "s-")
+}
+
+// vSynMergeInputs: two synonym segments, two terms per thesaurus (so that the per-term steps of the merge are reached).
+func vSynMergeInputs() ([]segment.Segment, []*roaring.Bitmap, *sSynSpec) {
+	var z ZapPlugin
+	mk := func(prefix string) segment.Segment {
+		oid := prefix + "o"
+		sid := prefix + "s0"
+		docs := []index.Document{
+			&vDoc{id: oid, fields: []index.Field{vIDField(oid), vTextField("body", 2, []vTerm{{term: "w", freq: 1}, {term: "x", freq: 1}}, index.IndexField, nil, nil, 't')}},
+			&vSynDoc{vDoc{id: sid, fields: []index.Field{vIDField(sid), &vSynField{name: "t1", terms: []string{"x", "y"}, syns: [][]string{{"p"}, {"q"}}}}}},
+		}
+		s, _, err := z.newWithChunkMode(docs, DefaultChunkMode)
+		vAssert(err == nil, "syn-build")
+		return s
+	}
+	wantSyn := &sSynSpec{pairs: map[string]map[string][]sSynPair{}, nDocs: 4, ids: []string{"ao", "as0", "bo", "bs0"}}
+	wantSyn.add("t1", "x", "p", 1)
+	wantSyn.add("t1", "y", "q", 1)
+	wantSyn.add("t1", "x", "p", 3)
+	wantSyn.add("t1", "y", "q", 3)
+	return []segment.Segment{mk("a"), mk("b")}, []*roaring.Bitmap{nil, nil}, wantSyn
 }
 
 type vCancelStats struct{ writes int }
@@ -166,8 +250,21 @@ func H18_cancel() {
 	var drops []*roaring.Bitmap
 	var want *sSpec
 	var wantSyn *sSynSpec
-	input := vChoice("input", 3)
-	if input == 2 {
+	input := vChoice("input", 4)
+	opened := 0
+	if input == 3 {
+		// inputs opened from files
+		segs, drops, want = vMergeInputs()
+		for i := range segs {
+			p := vP(fmt.Sprint("in", i, ".zap"))
+			vAssert(segs[i].(*SegmentBase).Persist(p) == nil, "persist-input")
+			var z ZapPlugin
+			o, err := z.Open(p)
+			vAssert(err == nil, "open-input")
+			segs[i] = o
+			opened++
+		}
+	} else if input == 2 {
 		// every document of every input deleted: the merge writes nothing but must still honour cancellation
 		segs, _, _ = vMergeInputs()
 		d0, d1 := roaring.New(), roaring.New()
@@ -178,32 +275,15 @@ func H18_cancel() {
 		segs, drops, want = vMergeInputs()
 	} else {
 		// synonym segments: two terms per thesaurus so that the per-term polls are reached
-		var z ZapPlugin
-		mk := func(prefix string) segment.Segment {
-			oid := prefix + "o"
-			sid := prefix + "s0"
-			docs := []index.Document{
-				&vDoc{id: oid, fields: []index.Field{vIDField(oid), vTextField("body", 2, []vTerm{{term: "w", freq: 1}, {term: "x", freq: 1}}, index.IndexField, nil, nil, 't')}},
-				&vSynDoc{vDoc{id: sid, fields: []index.Field{vIDField(sid), &vSynField{name: "t1", terms: []string{"x", "y"}, syns: [][]string{{"p"}, {"q"}}}}}},
-			}
-			s, _, err := z.newWithChunkMode(docs, DefaultChunkMode)
-			vAssert(err == nil, "syn-build")
-			return s
-		}
-		segs = []segment.Segment{mk("a"), mk("b")}
-		drops = []*roaring.Bitmap{nil, nil}
-		wantSyn = &sSynSpec{pairs: map[string]map[string][]sSynPair{}, nDocs: 4, ids: []string{"ao", "as0", "bo", "bs0"}}
-		wantSyn.add("t1", "x", "p", 1)
-		wantSyn.add("t1", "y", "q", 1)
-		wantSyn.add("t1", "x", "p", 3)
-		wantSyn.add("t1", "y", "q", 3)
+		segs, drops, wantSyn = vSynMergeInputs()
 	}
 	path := vP("c.zap")
 	st := &vCancelStats{}
 	ch := vCloseChan(&st.writes)
 	var z ZapPlugin
 	_, size, err := z.Merge(segs, drops, path, ch, st)
-	vAssert(vFSOpenHandles() == 0, "handle-closed")
+	vAssert(vFSOpenHandles() == opened, "handle-closed")
+	vAssert(len(segs) == 2 && segs[0] != nil, "inputs-alive")
 	vNote(fmt.Sprint("merge-returned-err=", err != nil, "-writes=", st.writes))
 	if err != nil {
 		vAssert(err == segment.ErrClosed, "err-is-closed")
